@@ -74,19 +74,26 @@ def build_model(force=False):
     the content hash of coq/theories and model/ (it does not depend on /repo)."""
     with Lock("model.lock"):
         want = tree_hash([os.path.join(COQ_DIR, "theories"), os.path.join(COQ_DIR, "_CoqProject"),
-                          os.path.join(VERIF, "model"), os.path.join(VERIF, "bin", "build-model")])
+                          os.path.join(VERIF, "model"), os.path.join(VERIF, "bin", "build-model"),
+                          os.path.join(VERIF, "tools", "xcheck.py")])
         stamp = os.path.join(CACHE, "model.stamp")
         if (not force and os.path.exists(stamp) and open(stamp).read() == want
                 and os.path.exists(MODEL_BIN)):
-            return {"cached": True, "hash": want}
+            xc = os.path.join(CACHE, "xcheck.txt")
+            return {"cached": True, "hash": want, "xcheck": open(xc).read() if os.path.exists(xc) else "?"}
         t0 = time.time()
         r = subprocess.run([os.path.join(VERIF, "bin", "build-model")], capture_output=True, text=True)
         if r.returncode != 0:
             if os.path.exists(stamp):
                 os.remove(stamp)
             raise BuildError("model build failed:\n" + r.stdout[-4000:] + r.stderr[-4000:])
+        # extraction cross-check: vm_compute inside Coq vs the extracted code on the same histories
+        x = subprocess.run([sys.executable, os.path.join(VERIF, "tools", "xcheck.py")], capture_output=True, text=True)
+        if x.returncode != 0:
+            raise BuildError("extraction cross-check failed:\n" + x.stdout[-3000:] + x.stderr[-2000:])
+        open(os.path.join(CACHE, "xcheck.txt"), "w").write(x.stdout.strip().split("\n")[-1])
         open(stamp, "w").write(want)
-        return {"cached": False, "hash": want, "wall_s": time.time() - t0}
+        return {"cached": False, "hash": want, "wall_s": time.time() - t0, "xcheck": x.stdout.strip().split("\n")[-1]}
 
 
 def build_harness():
